@@ -287,6 +287,11 @@ static Rec gen_api(Rng &g, long oid) {
   r.data.resize(16 + 1 + g.below(12));
   hist_key(g, r.data.data());
   for (size_t k = 16; k < r.data.size(); k++) r.data[k] = (uint8_t)(1 + g.below(255));
+  if (g.chance(0.5)) {   // the same IV seed as other operations of this history, or one that differs in its last byte only
+    r.data.resize(16 + 9);
+    for (size_t k = 0; k < 9; k++) r.data[16 + k] = (uint8_t)(1 + (g_hb.pseed >> (k * 5)) % 255);
+    if (g.chance(0.3)) r.data[24] = (uint8_t)(1 + g.below(255));
+  }
   return r;
 }
 
